@@ -152,7 +152,7 @@ def sym_tuple_source(vc):
                 cover(it, 'iter-reachable' + tag)
             it.loops['load.safe_process_datapackage#L0'] = LoopSpec(at_start=at_start, at_end=at_end)
             r = it.call(it.lib.getattr_(it, ld, 'safe_process_datapackage'), [dp])
-            its = ld.attrs.get('iterators')
+            its = ld.attrs['iterators']
             # iterators: a LAZY filter over the pairs (k-th given iterator, k-th descriptor), by the same matcher on the
             # descriptor's name
             ok = isinstance(its, lib.GenExp)
